@@ -338,7 +338,7 @@ Proof.
   intros Hbl Hen H. pose proof (pow2_split bl Hbl) as P. pose proof (pow2_pos (bl - 1) ltac:(lia)) as Q.
   unfold raw_of in H. unfold value_of_raw.
   destruct Hen as [-> | [-> | [-> | ->]]];
-    replace (0 <? bl) with true in H by lia; simpl andb in H;
+    replace (0 <? bl) with true in H by lia; cbn [andb] in H;
     match type of H with (if ?c then _ else _) = _ => destruct c eqn:Erng; [discriminate|] end;
     apply orb_false_iff in Erng as [E1 E2];
     match type of H with (if ?c then _ else _) = _ => destruct c eqn:Ebl; [discriminate|] end;
@@ -347,6 +347,25 @@ Proof.
     (split; [lia|]); f_equal; f_equal;
     repeat match goal with |- context [if ?c then _ else _] => destruct c eqn:? end; lia.
 Qed.
+
+(* a signed integer without any bit: zero is the only value which is accepted (the hypothesis 0 < bl of the theorem
+   above is what pointed at this case: before the fix commit "a signed integer of zero bits" -1 was accepted too,
+   and nothing was written) *)
+Theorem int_raw_zero_bits z en hl raw :
+  (en = None \/ en = Some Enc2C \/ en = Some Enc1C \/ en = Some EncSM) ->
+  raw_of (VInt z) 0 BInt en hl = Ok raw -> z = 0 /\ raw = 0.
+Proof.
+  intros Hen H. unfold raw_of in H.
+  destruct Hen as [-> | [-> | [-> | ->]]];
+    change (0 <? 0) with false in H; cbn [andb] in H;
+    match type of H with (if ?c then _ else _) = _ => destruct c eqn:Erng; [discriminate|] end;
+    apply orb_false_iff in Erng as [E1 E2];
+    assert (z = 0) as -> by lia; cbn in H; injection H as <-; split; reflexivity.
+Qed.
+Example int_raw_zero_bits_rejects :
+  raw_of (VInt (-1)) 0 BInt None true = Err ERej /\ raw_of (VInt 1) 0 BInt None true = Err ERej /\
+  raw_of (VInt 0) 0 BInt None true = Ok 0.
+Proof. repeat split. Qed.
 
 (* unsigned integers without encoding *)
 Theorem uint_raw_roundtrip z bl en hl raw :
